@@ -10,10 +10,16 @@ class T(tuple):
     pass
 
 
+RECORDERS = {}
+
+
 class Recorder:
-    """Per-model call log shared by all recording operations of one model."""
+    """Per-model call log shared by all recording operations of one model (looked up through a
+    module-level registry so that the operations stay picklable)."""
 
     def __init__(self):
+        self.id = len(RECORDERS)
+        RECORDERS[self.id] = self
         self.log = []
         self.draws = []
         self.bad = []
@@ -48,24 +54,35 @@ def _canon_kwargs(rec, name, kwargs):
     return tuple(kw)
 
 
+class RecOp:
+    """A recording operation: returns the symbolic term of its call and logs its own name."""
+
+    def __init__(self, rec, name):
+        self.rid = rec.id
+        self.opname = name
+        self.__name__ = 'rec_' + name
+
+    def __call__(self, *args, **kwargs):
+        rec = RECORDERS[self.rid]
+        rec.log.append(self.opname)
+        return T(('app', self.opname, tuple(args), _canon_kwargs(rec, self.opname, kwargs)))
+
+
 def rec_op(rec, name):
-    def f(*args, **kwargs):
-        rec.log.append(name)
-        return T(('app', name, tuple(args), _canon_kwargs(rec, name, kwargs)))
-    f.__name__ = 'rec_' + name
-    return f
+    return RecOp(rec, name)
 
 
 class RecDist:
     """A scipy-like distribution whose rvs records its call."""
 
     def __init__(self, rec, name):
-        self.rec = rec
+        self.rid = rec.id
         self.name = name
 
     def rvs(self, *params, size=None, random_state=None):
-        self.rec.log.append(self.name)
-        kw = _canon_kwargs(self.rec, self.name, dict(batch_size=int(size[0]), random_state=random_state))
+        rec = RECORDERS[self.rid]
+        rec.log.append(self.name)
+        kw = _canon_kwargs(rec, self.name, dict(batch_size=int(size[0]), random_state=random_state))
         return T(('app', self.name, tuple(params), kw))
 
 
@@ -196,6 +213,20 @@ def cparam(p):
     return '(PInt %s)' % cnat(p) if isinstance(p, (int, np.integer)) else '(PStr %s)' % cstr(p)
 
 
+def opid_of_state(n, st):
+    """identity of the node's operation callable: the name the recording operation logs"""
+    op = st.get('_operation')
+    if op is None:
+        return ''
+    kw = getattr(op, 'keywords', None)
+    if kw and isinstance(kw.get('distribution'), RecDist):
+        return kw['distribution'].name
+    nm = getattr(op, '__name__', '')
+    if nm.startswith('rec_'):
+        return nm[4:]
+    return n
+
+
 def snet_of_model(m):
     """Introspect the real source_net (node order, states, networkx edge order, observed)."""
     g = m.source_net
@@ -204,11 +235,11 @@ def snet_of_model(m):
         st = d.get('attr_dict', {})
         out = st.get('_output') if '_output' in st else None
         nodes.append('(%s, {| s_output := %s; s_has_op := %s; s_stochastic := %s; s_observable := %s; '
-                     's_uses_observed := %s; s_uses_batch_size := %s; s_uses_meta := %s; s_parameter := %s |})'
+                     's_uses_observed := %s; s_uses_batch_size := %s; s_uses_meta := %s; s_parameter := %s; s_opid := %s |})'
                      % (cstr(n), 'None' if '_output' not in st else '(Some %s)' % cvalue(out),
                         cbool('_operation' in st), cbool('_stochastic' in st), cbool(bool(st.get('_observable'))),
                         cbool(bool(st.get('_uses_observed'))), cbool(bool(st.get('_uses_batch_size'))),
-                        cbool(bool(st.get('_uses_meta'))), cbool('_parameter' in st)))
+                        cbool(bool(st.get('_uses_meta'))), cbool('_parameter' in st), cstr(opid_of_state(n, st))))
     edges = ['(%s, %s, %s)' % (cstr(u), cstr(v), cparam(d['param'])) for u, v, d in g.edges(data=True)]
     obs = ['(%s, %s)' % (cstr(k), cvalue(v)) for k, v in m.observed.items()]
     return '{| s_nodes := %s; s_edges := %s; s_observed := %s |}' % (clist(nodes), clist(edges), clist(obs))
